@@ -115,11 +115,11 @@ def _case(args):
         if "_know_pairs" in str(e):
             try:
                 import interegular
-                rx = re.findall(r'^[A-Z_0-9]+(?:\.-?\d+)?: (/(?:\\.|[^/])*/[imslux]*)[ \t]*$', g, re.M)      # (a literal may span lines)
-                def parses(lit):
-                    body, flags = lit[1:].rsplit('/', 1)
+                used = Lark(g, parser='earley', lexer='dynamic').terminals       # the terminals that survive pruning (no BasicLexer is built here)
+                rx = [t.pattern.to_regexp() for t in used if t.pattern.type == 're']
+                def parses(regexp):
                     try:
-                        interegular.parse_pattern(('(?%s:%s)' % (flags, body)) if flags else body); return True
+                        interegular.parse_pattern(regexp); return True
                     except Exception:
                         return False
                 if len(rx) >= 2 and not any(parses(x) for x in rx):
